@@ -20,6 +20,7 @@ func (c *Ctx) codecEngine() {
 		return
 	}
 	c.wholeCellValues(R)
+	c.maybeBits(R)
 	// (a) kind -> width on both sides
 	kindWidth := func(fname string) map[string]string {
 		out := map[string]string{}
@@ -380,4 +381,36 @@ func (c *Ctx) generatedReceivers(rule string) {
 	if n == 0 {
 		c.bad(rule, "generated method headers", token.NoPos, "no MarshalTL/UnmarshalTL method header found in the TL compiler's templates (anchor moved?)")
 	}
+}
+
+// maybeBits: the reflection encoder writes the Maybe presence bit from the nil-ness of the value:
+// nothing$0 for a nil value (and nothing else), just$1 before a present one. Every constant
+// WriteBit in tlb.encode that sits behind the isNil test carries the bit that the test's outcome
+// stands for.
+func (c *Ctx) maybeBits(rule string) {
+	f := c.fn("tlb", "encode")
+	if f == nil {
+		return
+	}
+	n, okv := 0, true
+	var bad []string
+	for _, cl := range callsTo(f, bocPath+".Cell.WriteBit") {
+		bit, ok := constBool(cl.Call.Args[1])
+		if !ok {
+			continue
+		}
+		for _, ft := range factsAt(f, cl.Block()) {
+			ic := callOf(ft.Cond)
+			if ic == nil || !strings.HasSuffix(callQName(&ic.Call), "tlb.isNil") {
+				continue
+			}
+			n++
+			if bit == ft.Truth { // nil (true) must write 0, present (false) must write 1
+				okv = false
+				bad = append(bad, fmt.Sprintf("%s: writes %v where isNil is %v", c.rel(cl.Pos()), bit, ft.Truth))
+			}
+			break
+		}
+	}
+	c.check(okv && n >= 4, rule, "Maybe presence bit: nil -> 0, present -> 1", f.Pos(), fmt.Sprintf("%d constant presence bits behind the nil test", n), "tlb.encode writes a Maybe presence bit that contradicts the nil test it sits behind ("+strings.Join(bad, "; ")+"): a missing value is announced as present (the decoder then reads a value that is not there) or a present one as missing")
 }
